@@ -12,6 +12,7 @@
 package c32
 
 import (
+	"encoding/json"
 	"fmt"
 	"runtime"
 	"strconv"
@@ -58,6 +59,7 @@ type scenario struct {
 	Phases []phase      `json:"phases,omitempty"`
 	CbY    []int        `json:"cb_yields,omitempty"` // Gosched calls inside callbacks, cycled
 	Final  int          `json:"final_return"`        // Return issued at the end so that Run terminates
+	Stage  *stage       `json:"stage,omitempty"`     // staged at redrawMutex instead of phases
 }
 
 type recorder struct {
@@ -108,12 +110,26 @@ func do(lp *cli.VerifC32Loop, r *recorder, o op) {
 	}
 }
 
-// execute runs one scenario against a fresh loop. direct != "" reports a hang.
-func execute(sc scenario) (r *recorder, direct string) {
-	old := runtime.GOMAXPROCS(sc.Procs)
-	defer runtime.GOMAXPROCS(old)
+// rig is one fresh loop with recording callbacks and a running Run goroutine.
+type rig struct {
+	lp       *cli.VerifC32Loop
+	r        *recorder
+	runDone  chan struct{}
+	gid      string // "goroutine N " of the goroutine executing Run
+	deadline time.Time
+}
+
+func (g *rig) stuck() string {
+	in, tk, rt := g.lp.Pending()
+	return fmt.Sprintf("in-callback=%v last-finished=%q pending inputs=%d token=%d return=%d run-goroutine=%s",
+		g.r.incb, g.r.lastEnd, in, tk, rt, goroutineState(g.gid))
+}
+
+// newRig creates the loop, installs the recording callbacks, performs the
+// scenario's pre-run requests and starts Run.
+func newRig(sc scenario) *rig {
 	lp := cli.VerifC32NewLoop()
-	r = &recorder{}
+	r := &recorder{}
 	cbEnter := func(coq, txt string) int {
 		r.mu.Lock()
 		r.add(coq, txt)
@@ -170,7 +186,7 @@ func execute(sc scenario) (r *recorder, direct string) {
 	for _, o := range sc.Pre {
 		do(lp, r, o)
 	}
-	runDone := make(chan struct{})
+	g := &rig{lp: lp, r: r, runDone: make(chan struct{})}
 	gidCh := make(chan string, 1)
 	go func() {
 		gidCh <- goroutineHeader()
@@ -183,45 +199,70 @@ func execute(sc scenario) (r *recorder, direct string) {
 		r.add(App("CReturned", N(uint64(v))), fmt.Sprintf("ret%d", v))
 		r.done = true
 		r.mu.Unlock()
-		close(runDone)
+		close(g.runDone)
 	}()
+	g.gid = <-gidCh
+	g.deadline = time.Now().Add(watchdog)
+	return g
+}
 
-	gid := <-gidCh
-	deadline := time.Now().Add(watchdog)
-	// settle waits until the loop is provably blocked in its select, or Run has
-	// returned. Blocked = no producer is running (the caller waited for them),
-	// the loop is outside any callback, all three channels are empty, and the
-	// Go runtime reports the goroutine executing Run as parked in a select
-	// (only the blocking 3-way select of Run can park it). Nothing can wake it
-	// until the harness issues the next request.
-	settle := func() string {
-		for spin := 0; ; spin++ {
-			r.mu.Lock()
-			in, tk, rt := lp.Pending()
-			if r.done {
-				r.mu.Unlock()
-				return ""
-			}
-			if !r.incb && in == 0 && tk == 0 && rt == 0 && parkedInSelect(gid) {
-				r.add("OQuiesce", "Q")
-				r.mu.Unlock()
-				return ""
-			}
-			stuck := fmt.Sprintf("in-callback=%v last-finished=%q pending inputs=%d token=%d return=%d", r.incb, r.lastEnd, in, tk, rt)
+// settle waits until the loop is provably blocked in its select, or Run has
+// returned. Blocked = no producer is running (the caller waited for them),
+// the loop is outside any callback, all three channels are empty, and the
+// Go runtime reports the goroutine executing Run as parked in a select
+// (only the blocking 3-way select of Run can park it). Nothing can wake it
+// until the harness issues the next request. A non-empty result is a hang.
+func (g *rig) settle() string {
+	r, lp := g.r, g.lp
+	for spin := 0; ; spin++ {
+		r.mu.Lock()
+		in, tk, rt := lp.Pending()
+		if r.done {
 			r.mu.Unlock()
-			if time.Now().After(deadline) {
-				return "the loop neither blocked in its select nor returned within " + watchdog.String() + " (hang): " + stuck
-			}
-			if spin < 200 {
-				runtime.Gosched()
-			} else {
-				time.Sleep(100 * time.Microsecond)
-			}
+			return ""
+		}
+		if !r.incb && in == 0 && tk == 0 && rt == 0 && strings.HasPrefix(goroutineState(g.gid), "select") {
+			r.add("OQuiesce", "Q")
+			r.mu.Unlock()
+			return ""
+		}
+		stuck := g.stuck()
+		r.mu.Unlock()
+		if time.Now().After(g.deadline) {
+			return "the loop neither blocked in its select nor returned within " + watchdog.String() + " (hang): " + stuck
+		}
+		if spin < 200 {
+			runtime.Gosched()
+		} else {
+			time.Sleep(100 * time.Microsecond)
 		}
 	}
+}
 
-	if d := settle(); d != "" {
-		return r, d
+// finish issues the final Return and waits for Run to return.
+func (g *rig) finish(final int) string {
+	do(g.lp, g.r, op{K: 'T', V: final})
+	select {
+	case <-g.runDone:
+		return ""
+	case <-time.After(time.Until(g.deadline) + time.Second):
+		g.r.mu.Lock()
+		stuck := g.stuck()
+		g.r.mu.Unlock()
+		return "Run did not return within " + watchdog.String() + " after Return was called (hang): " + stuck
+	}
+}
+
+// execute runs one scenario against a fresh loop. direct != "" reports a hang.
+func execute(sc scenario) (r *recorder, direct string) {
+	old := runtime.GOMAXPROCS(sc.Procs)
+	defer runtime.GOMAXPROCS(old)
+	if sc.Stage != nil {
+		return executeStaged(sc)
+	}
+	g := newRig(sc)
+	if d := g.settle(); d != "" {
+		return g.r, d
 	}
 	for _, ph := range sc.Phases {
 		var wg sync.WaitGroup
@@ -230,26 +271,120 @@ func execute(sc scenario) (r *recorder, direct string) {
 			go func(ops []op) {
 				defer wg.Done()
 				for _, o := range ops {
-					do(lp, r, o)
+					do(g.lp, g.r, o)
 				}
 			}(ops)
 		}
 		wg.Wait()
-		if d := settle(); d != "" {
+		if d := g.settle(); d != "" {
+			return g.r, d
+		}
+	}
+	return g.r, g.finish(sc.Final)
+}
+
+// ---- staged scenarios: the loop and the callers of Redraw are lined up at
+// redrawMutex (held by the harness through the hook), then released ----
+
+// stage describes one staged episode. The harness locks redrawMutex while the
+// loop is blocked in its select, then
+//   - LoopFirst: issues Input events so that the loop handles them and queues
+//     at the mutex in extractRedrawFull BEFORE the Redraw calls are made;
+//   - makes the Redraw calls, each from its own goroutine (the code under test
+//     blocks on the mutex; the invocation is recorded as ERedrawCall, whose two
+//     halves the acceptor places);
+//   - otherwise issues the Input events after the calls;
+//   - waits briefly, unlocks, waits for the calls to return and for the loop
+//     to block again.
+type stage struct {
+	LoopFirst bool  `json:"loop_first"`
+	Inputs    int   `json:"inputs"`
+	Calls     []int `json:"calls"` // 1 = Redraw(true), 0 = Redraw(false), in invocation order
+	Rounds    int   `json:"rounds"`
+}
+
+// waitState polls until the goroutine's wait reason starts with one of the
+// prefixes, or the goroutine is gone, or a short time-out expires (the staging
+// is best effort: soundness of the recorded trace does not depend on it).
+func waitState(gid string, max time.Duration, prefixes ...string) {
+	end := time.Now().Add(max)
+	for {
+		st := goroutineState(gid)
+		if st == "" {
+			return
+		}
+		for _, p := range prefixes {
+			if strings.HasPrefix(st, p) {
+				return
+			}
+		}
+		if time.Now().After(end) {
+			return
+		}
+		runtime.Gosched()
+		time.Sleep(20 * time.Microsecond)
+	}
+}
+
+func executeStaged(sc scenario) (*recorder, string) {
+	g := newRig(sc)
+	lp, r := g.lp, g.r
+	if d := g.settle(); d != "" {
+		return r, d
+	}
+	st := sc.Stage
+	ev := 0
+	inputs := func() {
+		for i := 0; i < st.Inputs; i++ {
+			ev++
+			do(lp, r, op{K: 'I', V: ev})
+		}
+		if st.Inputs > 0 {
+			// the loop handles them and then queues at the mutex
+			waitState(g.gid, 50*time.Millisecond, "sync.Mutex.Lock", "semacquire")
+		}
+	}
+	for round := 0; round < st.Rounds; round++ {
+		r.mu.Lock()
+		done := r.done
+		r.mu.Unlock()
+		if done {
+			break
+		}
+		lp.VerifC32LockRedraw()
+		if st.LoopFirst {
+			inputs()
+		}
+		var wg sync.WaitGroup
+		for _, f := range st.Calls {
+			f := f
+			// the invocation is recorded before the call and outside of it: the
+			// caller must not hold the recorder while it waits for the mutex
+			r.mu.Lock()
+			r.add(App("ERedrawCall", Bool(f != 0)), fmt.Sprintf("RC%d", f))
+			r.mu.Unlock()
+			gidCh := make(chan string, 1)
+			wg.Add(1)
+			go func() {
+				defer wg.Done()
+				gidCh <- goroutineHeader()
+				lp.Redraw(f != 0)
+			}()
+			// wait until this caller is parked on the mutex (or has returned)
+			waitState(<-gidCh, 50*time.Millisecond, "sync.Mutex.Lock", "semacquire")
+		}
+		if !st.LoopFirst {
+			inputs()
+		}
+		// give a loop that was (wrongly) woken the time to reach the mutex
+		waitState(g.gid, 2*time.Millisecond, "sync.Mutex.Lock", "semacquire")
+		lp.VerifC32UnlockRedraw()
+		wg.Wait()
+		if d := g.settle(); d != "" {
 			return r, d
 		}
 	}
-	do(lp, r, op{K: 'T', V: sc.Final})
-	select {
-	case <-runDone:
-	case <-time.After(time.Until(deadline) + time.Second):
-		r.mu.Lock()
-		in, tk, rt := lp.Pending()
-		stuck := fmt.Sprintf("in-callback=%v last-finished=%q pending inputs=%d token=%d return=%d", r.incb, r.lastEnd, in, tk, rt)
-		r.mu.Unlock()
-		return r, "Run did not return within " + watchdog.String() + " after Return was called (hang): " + stuck
-	}
-	return r, ""
+	return r, g.finish(sc.Final)
 }
 
 // goroutineHeader returns "goroutine N " for the calling goroutine.
@@ -263,9 +398,10 @@ func goroutineHeader() string {
 	return "goroutine " + f[1] + " "
 }
 
-// parkedInSelect reports whether the goroutine with the given header is parked
-// in a select according to the runtime's own goroutine dump.
-func parkedInSelect(gid string) bool {
+// goroutineState returns the wait reason the runtime's goroutine dump shows for
+// the goroutine with the given header ("select", "sync.Mutex.Lock", "running",
+// "runnable", ...; a duration suffix is possible), or "" if it no longer exists.
+func goroutineState(gid string) string {
 	buf := make([]byte, 1<<16)
 	for {
 		n := runtime.Stack(buf, true)
@@ -278,10 +414,13 @@ func parkedInSelect(gid string) bool {
 	s := "\n" + string(buf)
 	i := strings.Index(s, "\n"+gid+"[")
 	if i < 0 {
-		return false
+		return ""
 	}
-	rest := s[i+1+len(gid):]
-	return strings.HasPrefix(rest, "[select]") || strings.HasPrefix(rest, "[select,")
+	rest := s[i+2+len(gid):]
+	if j := strings.IndexByte(rest, ']'); j >= 0 {
+		return rest[:j]
+	}
+	return ""
 }
 
 // emit runs one scenario and emits its case; it reports whether the run hung.
@@ -299,9 +438,10 @@ func emit(c *reg.Ctx, class string, sc scenario) bool {
 		c.Count("inputs-not-issued-buffer-full")
 	}
 	nontrivial := strings.Contains(trace, "R") && strings.Contains(trace, "hs")
+	scJSON, _ := json.Marshal(sc)
 	cs := reg.Case{
 		Desc:       desc{sc, trace, note},
-		Key:        fmt.Sprintf("%s/%d/%v/%v/%v/%s", sc.Name, sc.Procs, sc.Pre, sc.Inline, sc.Phases, trace),
+		Key:        string(scJSON) + "/" + trace,
 		Nontrivial: nontrivial,
 		Class:      class,
 	}
@@ -365,6 +505,18 @@ func planted() []struct {
 	// requests after the loop has returned are harmless
 	add("after-return", scenario{Inline: map[int][]op{0: {T(2)}},
 		Phases: []phase{{[][]op{{R(1), I(1), T(8)}}}}})
+	// staged at redrawMutex: the loop queued at extractRedrawFull before Redraw is
+	// called, and callers queued before the loop; single P makes the hand-over
+	// order after the unlock deterministic, several Ps vary it
+	for _, procs := range []int{1, 1, 1, 2, 4} {
+		add("staged-loop-queued-first", scenario{Procs: procs, Stage: &stage{LoopFirst: true, Inputs: 1, Calls: []int{1}, Rounds: 3}})
+		add("staged-loop-queued-first", scenario{Procs: procs, Stage: &stage{LoopFirst: true, Inputs: 2, Calls: []int{0, 1}, Rounds: 2}})
+		add("staged-callers-first", scenario{Procs: procs, Stage: &stage{Calls: []int{1}, Rounds: 2}})
+		add("staged-callers-first", scenario{Procs: procs, Stage: &stage{Inputs: 1, Calls: []int{1, 0}, Rounds: 2}})
+	}
+	add("staged-callers-first", scenario{Procs: 2, Stage: &stage{Calls: []int{1, 1}, Rounds: 2}})
+	add("staged-callers-first", scenario{Procs: 1, Stage: &stage{Calls: []int{0}, Rounds: 2}})
+	add("staged-loop-queued-first", scenario{Procs: 1, Stage: &stage{LoopFirst: true, Inputs: 1, Calls: []int{0}, Rounds: 2}})
 	// the input buffer filled to its capacity from inside a callback
 	var fill []op
 	for i := 1; i <= cli.VerifC32InputChSize+2; i++ {
@@ -439,6 +591,166 @@ func random(c *reg.Ctx, i int) (string, scenario) {
 	return class, sc
 }
 
+// ---- second line: time-boxed API-only storm of concurrent Redraw calls ----
+
+type stressDesc struct {
+	Rounds int    `json:"rounds_total"`
+	Count  int    `json:"rounds_with_this_trace"`
+	Trace  string `json:"trace"`
+	Note   string `json:"note"`
+}
+
+// stress runs rounds of 2-4 goroutines that call Redraw concurrently through
+// the plain API (nothing is held across the call; only the invocation is
+// recorded, as ERedrawCall), lets the loop block again after each round, and
+// emits every distinct round trace once (prefixed by the trace that leads to
+// the blocked state every round starts from). A lost full redraw shows up as a
+// round whose last blocked marker is not preceded by a full redraw.
+func stress(c *reg.Ctx, dur time.Duration) bool {
+	old := runtime.GOMAXPROCS(4)
+	defer runtime.GOMAXPROCS(old)
+	lp := cli.VerifC32NewLoop()
+	var mu sync.Mutex
+	var coq, txt []string
+	incb := false
+	rec := func(cq, tx string, in bool) {
+		mu.Lock()
+		coq = append(coq, cq)
+		txt = append(txt, tx)
+		incb = in
+		mu.Unlock()
+	}
+	lp.HandleCb(func(any) {})
+	final := false
+	lp.RedrawCb(func(flag uint) {
+		if flag&cli.VerifC32FinalRedraw != 0 {
+			final = true
+			return
+		}
+		f := flag&cli.VerifC32FullRedraw != 0
+		fs := "rs0"
+		if f {
+			fs = "rs1"
+		}
+		rec(App("CRedrawStart", Bool(f)), fs, true)
+		rec("CRedrawEnd", "re", false)
+	})
+	runDone := make(chan struct{})
+	gidCh := make(chan string, 1)
+	go func() {
+		gidCh <- goroutineHeader()
+		lp.Run()
+		close(runDone)
+	}()
+	gid := <-gidCh
+	hang := func(what string) bool {
+		c.Count("stress-redraw-storm")
+		c.Emit(reg.Case{Class: "stress-redraw-storm", Key: "stress-hang", Desc: stressDesc{Note: what},
+			Direct: what})
+		return true
+	}
+	blocked := func() bool {
+		end := time.Now().Add(watchdog)
+		for spin := 0; ; spin++ {
+			mu.Lock()
+			in, tk, rt := lp.Pending()
+			ok := !incb && in == 0 && tk == 0 && rt == 0
+			mu.Unlock()
+			if ok && strings.HasPrefix(goroutineState(gid), "select") {
+				return true
+			}
+			if time.Now().After(end) {
+				return false
+			}
+			if spin < 50 {
+				runtime.Gosched()
+			} else {
+				time.Sleep(20 * time.Microsecond)
+			}
+		}
+	}
+	if !blocked() {
+		return hang("stress: the loop did not block in its select within " + watchdog.String() + " after start (hang)")
+	}
+	mu.Lock()
+	prefixCoq := append(append([]string(nil), coq...), "OQuiesce")
+	prefixTxt := strings.Join(txt, " ") + " Q"
+	mu.Unlock()
+	type shape struct {
+		coq   []string
+		count int
+	}
+	shapes := map[string]*shape{}
+	var order []string
+	rounds := 0
+	stop := time.Now().Add(dur)
+	for time.Now().Before(stop) {
+		mu.Lock()
+		coq, txt = coq[:0], txt[:0]
+		mu.Unlock()
+		n := 2 + c.Rand.Intn(3)
+		fulls := make([]bool, n)
+		for i := range fulls {
+			fulls[i] = c.Rand.Intn(8) != 0
+		}
+		start := make(chan struct{})
+		var wg sync.WaitGroup
+		for _, f := range fulls {
+			f := f
+			wg.Add(1)
+			go func() {
+				defer wg.Done()
+				<-start
+				fs := "RC0"
+				if f {
+					fs = "RC1"
+				}
+				rec2 := App("ERedrawCall", Bool(f))
+				mu.Lock()
+				coq = append(coq, rec2)
+				txt = append(txt, fs)
+				mu.Unlock()
+				lp.Redraw(f)
+			}()
+		}
+		close(start)
+		wg.Wait()
+		if !blocked() {
+			return hang("stress: the loop did not block in its select within " + watchdog.String() + " after a round of Redraw calls (hang)")
+		}
+		rounds++
+		mu.Lock()
+		key := strings.Join(txt, " ")
+		if sh := shapes[key]; sh != nil {
+			sh.count++
+		} else {
+			shapes[key] = &shape{append(append(append([]string(nil), prefixCoq...), coq...), "OQuiesce"), 1}
+			order = append(order, key)
+		}
+		mu.Unlock()
+	}
+	lp.Return("0", nil)
+	select {
+	case <-runDone:
+	case <-time.After(watchdog):
+		return hang("stress: Run did not return within " + watchdog.String() + " after Return (hang)")
+	}
+	_ = final
+	c.Dist["stress-rounds"] += rounds
+	for _, key := range order {
+		sh := shapes[key]
+		c.Count("stress-redraw-storm")
+		c.Emit(reg.Case{
+			Coq:        App("mkCase", List(sh.coq)),
+			Desc:       stressDesc{rounds, sh.count, prefixTxt + " " + key + " Q", "one round of concurrent Redraw calls from a blocked loop, plain API"},
+			Key:        "stress/" + key,
+			Nontrivial: true,
+			Class:      "stress-redraw-storm",
+		})
+	}
+	return false
+}
+
 func run(c *reg.Ctx) {
 	reps := 1
 	if c.Tier == "thorough" {
@@ -450,6 +762,13 @@ func run(c *reg.Ctx) {
 				return // a hung loop goroutine is still alive; one hang is enough
 			}
 		}
+	}
+	dur := 3 * time.Second
+	if c.Tier == "thorough" {
+		dur = 20 * time.Second
+	}
+	if stress(c, dur) {
+		return
 	}
 	for i := 0; i < c.N; i++ {
 		class, sc := random(c, i)
